@@ -16,6 +16,8 @@ struct Heap {
 };
 
 static std::string g_desc;
+static char *g_arena = (char *)calloc(1, 1 << 18);
+static size_t g_arena_last = 0;
 
 // builds e with the library (bottom-up); returns exact bytes the library produced
 static bool build(const Elem &e, ref::bytes &out)
@@ -166,7 +168,8 @@ int main(int argc, char **argv)
         if(i % 8 == 7) { run_subtree(r); return; }
         int maxdepth = (int)(i % 5);   // nesting depth 0..4 (0 = bundle of plain messages)
         Elem e = gen::gen_elem(r, maxdepth + 1, true);
-        if(e.kids.size() > 8) e.kids.resize(8);
+        if(e.kids.size() > (size_t)gen::MAX_BUNDLE_ELEMS) e.kids.resize(gen::MAX_BUNDLE_ELEMS);
+        if(e.kids.size() > 8) count("cases.more_than_8_elements");
         g_desc = e.render();
         if(g_desc.size() > 1200) g_desc.resize(1200);
         describe_case(g_desc);
@@ -175,6 +178,30 @@ int main(int argc, char **argv)
         if(!build(e, lib)) return;
         distinct(hash_bytes(lib.data(), lib.size()));
         count(fmt("cases.depth_%d", e.depth()));
+        // accessors are functions of the bytes alone: one buffer is reused for bundle after bundle; the first element
+        // fetched from the new bundle lies at or behind the last one fetched from its predecessor (nothing in between)
+        if(!e.kids.empty() && lib.size() + 8 < (1u << 18)) {
+            memcpy(g_arena, lib.data(), lib.size());
+            memset(g_arena + lib.size(), 0, 8);
+            std::vector<size_t> offs; size_t off = 16;
+            std::vector<ref::bytes> kb;
+            for(auto &k : e.kids) { kb.push_back(k.encode()); offs.push_back(off + 4); off += 4 + kb.back().size(); }
+            size_t n = e.kids.size();
+            int how = (int)r.below(3);
+            size_t start = g_arena_last < n ? g_arena_last + (size_t)r.below(n - g_arena_last) : (size_t)r.below(n);
+            count("inspect.reused_buffer");
+            for(size_t k = 0; k < n; ++k) {
+                size_t i = how == 0 ? (start + n - k) % n : how == 1 ? (start + k) % n : (k == 0 ? start : (size_t)r.below(n));
+                const char *f = rtosc_bundle_fetch(g_arena, (unsigned)i);
+                size_t sz = rtosc_bundle_size(g_arena, (unsigned)i);
+                count("inspect.fetch_reused_buffer");
+                if(f != g_arena + offs[i] || sz != kb[i].size() || memcmp(f, kb[i].data(), kb[i].size())) {
+                    fail("bundle_fetch_history_dependent", {}, g_desc + " [same buffer as the previous bundle, elements fetched in another order]",
+                         fmt("elem %zu at offset %ld size %zu", i, (long)(f - g_arena), sz), fmt("offset %zu size %zu, the element's bytes", offs[i], kb[i].size()));
+                    break;
+                }
+            }
+        }
         Heap h(lib.size());
         memcpy(h.p, lib.data(), lib.size());
         inspect(e, h.p, lib.size(), 0);
@@ -189,28 +216,7 @@ int main(int argc, char **argv)
             inspect(e, hu.p + shift, lib.size(), 0);
             g_desc = keep;
         }
-        // accessors are functions of the bytes alone: one buffer reused for bundle after bundle, elements fetched in any order
-        if(!e.kids.empty() && lib.size() + 8 < (1u << 18)) {
-            static char *arena = (char *)calloc(1, 1 << 18);
-            memcpy(arena, lib.data(), lib.size());
-            memset(arena + lib.size(), 0, 8);
-            std::vector<size_t> offs; size_t off = 16;
-            std::vector<ref::bytes> kb;
-            for(auto &k : e.kids) { kb.push_back(k.encode()); offs.push_back(off + 4); off += 4 + kb.back().size(); }
-            size_t n = e.kids.size(), start = (size_t)r.below(n);
-            int how = (int)r.below(3);
-            count("inspect.reused_buffer");
-            for(size_t k = 0; k < n; ++k) {
-                size_t i = how == 0 ? n - 1 - k : how == 1 ? (start + k) % n : (size_t)r.below(n);
-                const char *f = rtosc_bundle_fetch(arena, (unsigned)i);
-                size_t sz = rtosc_bundle_size(arena, (unsigned)i);
-                count("inspect.fetch_reused_buffer");
-                if(f != arena + offs[i] || sz != kb[i].size() || memcmp(f, kb[i].data(), kb[i].size())) {
-                    fail("bundle_fetch_history_dependent", {}, g_desc + " [same buffer as the previous bundle, elements fetched in another order]",
-                         fmt("elem %zu at offset %ld size %zu", i, (long)(f - arena), sz), fmt("offset %zu size %zu, the element's bytes", offs[i], kb[i].size()));
-                    break;
-                }
-            }
-        }
+        // last accessor call of the case: one element of the copy in the reused buffer
+        if(!e.kids.empty() && lib.size() + 8 < (1u << 18)) { g_arena_last = (size_t)r.below(e.kids.size()); (void)rtosc_bundle_fetch(g_arena, (unsigned)g_arena_last); }
     });
 }
